@@ -36,6 +36,7 @@ type Job struct {
 	WallS      int               `json:"wall_s"`
 	Verbose    bool              `json:"verbose"`
 	MaxModels  int               `json:"max_models"`
+	Pass1Pre   int               `json:"pass1_preempt"`
 	ExtraPkgs  []string          `json:"extra_pkgs"`
 	SampleMax  int               `json:"sample_max"`
 	ReplayOnly string            `json:"replay_only"`
@@ -176,10 +177,26 @@ func run(job *Job) *Result {
 		res.Status, res.Error = "no-function", job.Fn
 		return res
 	}
+	var pass1Races []sym.Finding
+	pass1Known := map[string]int{}
+	pass1KnownModels := map[string]map[string]uint64{}
+	ex.TwoPass = job.TwoPass
+	ex.Pass1Preempt = job.Pass1Pre
 	if job.TwoPass {
 		ws := ex.RunParallel(h, job.Workers)
 		for _, w := range ws {
 			res.Pass1Paths += w.Paths
+			for _, f := range w.Findings {
+				if f.Kind == "race" {
+					pass1Races = append(pass1Races, f)
+				}
+			}
+			for k, v := range w.KnownHits {
+				pass1Known[k] += v
+				if _, ok := pass1KnownModels[k]; !ok {
+					pass1KnownModels[k] = w.KnownModels[k]
+				}
+			}
 			w.S.Close()
 		}
 		ex.UseRacySites = true
@@ -196,6 +213,11 @@ func run(job *Job) *Result {
 	res.Intrinsics = map[string]int64{}
 	res.PathEnds = map[string]int{}
 	var findings []sym.Finding
+	findings = append(findings, pass1Races...)
+	for k, v := range pass1Known {
+		res.KnownHits[k] += v
+		res.KnownModels[k] = pass1KnownModels[k]
+	}
 	var st time.Duration
 	for _, w := range ws {
 		res.Paths += w.Paths
@@ -254,7 +276,9 @@ func run(job *Job) *Result {
 	byGroup := map[string][]sym.Finding{}
 	for _, f := range findings {
 		k := f.Kind + "|" + f.Msg
-		if f.Kind == "panic" || f.Kind == "unwind" || f.Kind == "budget" || f.Kind == "unsupported" || f.Kind == "engine-error" {
+		if f.Kind == "race" {
+			k = f.Kind + "|" + f.Msg
+		} else if f.Kind == "panic" || f.Kind == "unwind" || f.Kind == "budget" || f.Kind == "unsupported" || f.Kind == "engine-error" {
 			k += "|" + f.Where
 		}
 		if _, ok := idx[k]; !ok {
@@ -302,7 +326,7 @@ func run(job *Job) *Result {
 
 func replayable(kind string) bool {
 	switch kind {
-	case "assert", "panic", "unwind", "budget", "deadlock":
+	case "assert", "panic", "unwind", "budget", "deadlock", "race":
 		return true
 	}
 	return false
